@@ -30,7 +30,8 @@ def specs(run):
          ('numpy', (127, 66, 5), 0), ('numpy', (2, 2, 2), 4), ('numpy', (68, 5, 1030), 1), ('segy', (6, 61, 9), 0), ('irregular', (9, 7, 12), 0),
          ('numpy', (128, 3, 5), 2), ('numpy', (61, 61, 4), 1), ('segy-dup', (6, 9, 8), 0),
          # separately stored arrays that happen to hold the same values (two given arrays equal; exhaustive detection: many all-zero arrays)
-         ('numpy-equal', (7, 9, 6), 0), ('segy-exhaustive', (5, 6, 8), 0)]
+         ('numpy-equal', (7, 9, 6), 0), ('segy-exhaustive', (5, 6, 8), 0),
+         ('fixture', (5, 5, 50), 0)]        # test_data/small_2bit.sgz, written by a release older than every format gate
     if not quick:
         S += [('numpy', (129, 65, 5), 1), ('numpy', (70, 129, 4), 0), ('numpy', (4, 4, 2100), 2), ('irregular', (66, 5, 9), 0), ('segy', (65, 5, 20), 0),
               ('numpy', (60, 124, 6), 1), ('numpy', (125, 59, 3), 0), ('numpy', (64, 128, 4), 1)]
@@ -48,6 +49,9 @@ def make(d, k, spec, seed):
             th[f] = (t * (j + 3) - 11 * j).astype(np.int32)
         writers.numpy_to_sgz(p, cube, 2, (4, 4, -1), ilines=10 + 3 * np.arange(shape[0]), xlines=-5 + 2 * np.arange(shape[1]),
                              samples=4.0 * np.arange(shape[2]), trace_headers=th)
+    elif route == 'fixture':
+        import shutil
+        shutil.copy(os.path.join(inputs.FIXTURES, 'small_2bit.sgz'), p)
     elif route == 'numpy-equal':
         t = np.arange(shape[0] * shape[1]).reshape(shape[0], shape[1]).astype(np.int32)
         th = {segyio.TraceField.CDP_X: 3 * t + 1, segyio.TraceField.SourceX: 3 * t + 1, segyio.TraceField.CDP: 7 - t, segyio.TraceField.GroupX: 3 * t + 1}
@@ -243,7 +247,8 @@ def run(run):
         # truth for the re-blocked header: the source's own (conformant, C03) header with the new blockshape
         Hs = r['Hs']
         T = c03.truth(3, r['Fs']['n'], [64, 64, 4], 2, r['Fs']['ntr'], (Hs['min_iline'], Hs['iline_interval']), (Hs['min_xline'], Hs['xline_interval']),
-                      Hs['min_sample'], Hs['sample_interval'], source_format=Hs['source_format'], check_version=False)
+                      Hs['min_sample'], Hs['sample_interval'] * (1 if sgzfile.decode_version(Hs['version']) > sgzfile.V_0_1_6 else 1000),      # (the word is in ms in files up to 0.1.6)
+                      source_format=Hs['source_format'], check_version=False)
         conf_items.append({'T': T, 'H': r['Ha']})
     out = tlc.oracle('Gen_Transform', {'items': items}, key='items', timeout=1800, per_shard=1) if items else {'items': [], '_tlc': {'generated': 0, 'wall_s': 0}}
     run.add_tlc({'distinct': 0, 'generated': out['_tlc']['generated'], 'wall_s': out['_tlc']['wall_s']}, 'Gen_Transform(reblock)')
@@ -278,6 +283,7 @@ def replay(run, rep):
     if 'error' not in r and rep['clause'] == 'C12.conformant':
         Hs = r['Hs']
         T = c03.truth(3, r['Fs']['n'], [64, 64, 4], 2, r['Fs']['ntr'], (Hs['min_iline'], Hs['iline_interval']), (Hs['min_xline'], Hs['xline_interval']),
-                      Hs['min_sample'], Hs['sample_interval'], source_format=Hs['source_format'], check_version=False)
+                      Hs['min_sample'], Hs['sample_interval'] * (1 if sgzfile.decode_version(Hs['version']) > sgzfile.V_0_1_6 else 1000),      # (the word is in ms in files up to 0.1.6)
+                      source_format=Hs['source_format'], check_version=False)
         conf = [f[0] for f in tlc.oracle('Gen_Conform', {'items': [{'T': T, 'H': r['Ha']}]}, key='items')['items'][0]['failed']]
     judge(run, spec, r, None, conf)
